@@ -7,6 +7,22 @@ from .absval import Int, Opaque, Arr
 from .lin import Lin
 
 
+def _const_int(e, assigns, depth=0):
+    """Integer value of +, -, * arithmetic over literals and module-level names bound (once) to such expressions, else None."""
+    if depth > 6:
+        return None
+    if isinstance(e, ast.Constant) and type(e.value) is int:
+        return e.value
+    if isinstance(e, ast.Name) and e.id in assigns:
+        return _const_int(assigns[e.id], assigns, depth + 1)
+    if isinstance(e, ast.BinOp) and isinstance(e.op, (ast.Add, ast.Sub, ast.Mult)):
+        a, b = _const_int(e.left, assigns, depth + 1), _const_int(e.right, assigns, depth + 1)
+        if a is None or b is None:
+            return None
+        return a + b if isinstance(e.op, ast.Add) else (a - b if isinstance(e.op, ast.Sub) else a * b)
+    return None
+
+
 def module_consts(src, rel):
     """Module-level constant tables: name -> abstract value (integer scalars, literal arrays)."""
     out = {}
@@ -22,6 +38,9 @@ def module_consts(src, rel):
                 and isinstance(v.args[0].generators[0].iter.args[0], ast.Constant) and type(v.args[0].generators[0].iter.args[0].value) is int:
             # a table built by a comprehension over range(<literal>): that many entries
             out[name] = Arr(name, [Lin.const(max(0, v.args[0].generators[0].iter.args[0].value))])
+        elif isinstance(v, ast.Call) and dotted(v.func) in ('np.zeros', 'np.ones', 'np.empty') and v.args and _const_int(v.args[0], src.module_assigns(rel)) is not None:
+            # an allocation whose length is integer arithmetic over module-level integer constants (np.ones(MAX + 1))
+            out[name] = Arr(name, [Lin.const(max(0, _const_int(v.args[0], src.module_assigns(rel))))])
         elif isinstance(v, ast.Call) and dotted(v.func) in ('np.array', 'np.asarray', 'np.zeros', 'np.ones', 'np.empty', 'np.arange', 'np.linspace', 'np.cumprod', 'np.cumsum'):
             # a module-level table whose length is not a literal: an array of unknown length (every subscript of it is an obligation -- it used
             # to be no value at all, so the accesses were silently not analysed: seed C11g)
